@@ -448,7 +448,7 @@ def walk(t):
 
 
 # ---- literals ----------------------------------------------------------------------------------------
-ALPH = list("ab /\\\"'{}%\n\t\r") + ["\x01", "\x08", "\x0c", "\x1f", "é", "日", " ", "😀"]
+ALPH = list("ab /\\\"'{}%\n\t\r") + ["\x01", "\x08", "\x0c", "\x1f", "é", "日", " ", "😀", "\x7f", "\u0085", "\u009b", "\u00a0", "\u200b", "\u2028", "\ufeff", "\ufffd"]
 
 
 LIT_POSITIONS = [
@@ -576,6 +576,28 @@ def literals(run, rng, wits):
         st["printed"] += 1
         if o["stdout"].decode("utf-8", "replace") != s + "\n<<END>>\n":
             wits.append({"kind": "the compiled program prints other characters than the literal denotes", "program": p, "expected": s, "got": o["stdout"].decode("utf-8", "replace")})
+    # every string, ASCII or not: the Go TEXT the compiler writes, read back with Go's lexical rules (\xNN is one byte,
+    # \uNNNN a code point, no byte order mark inside the file), must contain a literal with exactly the bytes written
+    import goparse
+
+    allp = ["fn main() { string_println(%s) }" % lit_string(s, rng) for s in strs]
+    root2, paths2 = semrun.write_programs("c11txt", allp)
+    tres = vlib.run_harness("compile", [{"path": p_, "timeout_ms": 20000} for p_ in paths2], shards=vlib.NCPU)
+    shutil.rmtree(root2, ignore_errors=True)
+    st["go_text_literals"] = 0
+    for s, p_, r in zip(strs, allp, tres):
+        if not r.get("ok"):
+            wits.append({"kind": "a program that prints a string literal is rejected", "program": p_, "impl": {k: v for k, v in r.items() if k != "go"}})
+            continue
+        try:
+            lits = [v for k, v in goparse.lex(r["go"]) if k == "str"]
+        except goparse.GoSyntaxError as e:
+            wits.append({"kind": "the Go text emitted for a string literal does not lex as Go: %s" % e, "program": p_, "expected": s})
+            continue
+        if s.encode("utf-8").decode("latin-1") in lits:
+            st["go_text_literals"] += 1
+        else:
+            wits.append({"kind": "no string literal of the emitted Go text denotes the bytes of the source literal", "program": p_, "expected_bytes": list(s.encode("utf-8"))[:40], "go_excerpt": r["go"][r["go"].find("func main0") :][:300]})
     return st
 
 
